@@ -46,7 +46,7 @@ PROPS = {
         lean=["LP.Props.C03base", "LP.Props.C03final", "LP.Props.C01reach", "LP.Props.C01reachV2", "LP.Props.C01reachV1", "LP.Props.C01reachG1", "LP.Props.C14reach", "LP.Props.C14reachG", "LP.Props.AllVariants2"],
         profiles=[("life", ALL_VARIANTS), ("fy", ["base", "guarV2"]), ("chunks", GUAR), ("topup", GUAR)],
         R={"ret": {"select", "distribute"}},
-        D={"nrw": SELECT_EPS, "status": SELECT_EPS, "cpay": SELECT_EPS, "last": SELECT_EPS, "addr.win": SELECT_EPS,
+        D={"nrw": SELECT_EPS | {"claim"}, "status": SELECT_EPS, "cpay": SELECT_EPS, "last": SELECT_EPS, "addr.win": SELECT_EPS,
            "views.C03": ANY},
     ),
     "C04": dict(
@@ -170,7 +170,7 @@ PROPS = {
     ),
     "C20": dict(
         title="Events",
-        lean=["LP.Props.C20", "LP.Props.C20frame"],
+        lean=["LP.Props.C20", "LP.Props.C20frame", "LP.Props.C20ledger"],
         profiles=[("life", ALL_VARIANTS), ("chunks", ALL_VARIANTS), ("topup", GUAR)],
         R={"ev": ANY},
         D={},
